@@ -8,6 +8,48 @@ def observe(step):
     return (step['threw'], step['exc'], step['ret'], step['info'], step['niter'], step['nops'], step['evals'], step['evecs_hash'], step['nvals'], step['ncols'])
 
 
+_f1 = {}
+
+
+def known_f1_c06(ck, exe, cls, reused):
+    """F1-C06 (root F1): an injected fault that lands in the probe solves of GenEigsComplexShiftSolver leaves the operator shifted.
+    Classifier: the fault index exceeds num_operations() of the same compute() run without the fault; witness must still fail."""
+    kf = [f for f in load_known().get('findings', []) if f.get('id') == 'F1-C06']
+    if not kf or cls != 'GenEigsComplexShiftSolver' or ';F:' not in reused:
+        return False
+    head, ops = reused.split('ops=')[0], reused.split('ops=')[1].split()[0].split(';')
+    tail = ' '.join(reused.split('ops=')[1].split()[1:])
+    hit = False
+    for i, o in enumerate(ops):
+        if o.startswith('F:') and i + 1 < len(ops) and ops[i + 1].startswith('C:'):
+            k = int(o[2:])
+            clean = [x for j, x in enumerate(ops[:i + 2]) if j != i]                 # same prefix up to that compute(), fault removed
+            rc, r = run_hist(exe, [head + 'ops=' + ';'.join(clean) + ' ' + tail])
+            try:
+                st = [s_ for s_ in r[0]['steps'] if not s_.get('skipped')]
+                comp = st[-1]; before = st[-2]['nops'] if len(st) > 1 and st[-2]['op'][0] in 'IV' else 0
+                iter_ops = comp['nops'] - before
+                if k > iter_ops:
+                    hit = True
+            except Exception:
+                pass
+    if not hit:
+        return False
+    if 'w' not in _f1:
+        w = kf[0]['witness']
+        rc, r = run_hist(exe, [w, w.replace('ops=I;F:5;C:6:5:1e-10:6;U;', 'ops=')])
+        try:
+            _f1['w'] = observe(r[0]['steps'][-1]) != observe(r[1]['steps'][-1])
+        except Exception:
+            _f1['w'] = False
+    if not _f1['w']:
+        return False
+    msg = 'F1-C06 operator fault during the probe solves of GenEigsComplexShiftSolver leaves the operator at the probe shift (root F1): the reused solver then differs from a fresh one (witness: n=4 nev=2 ncv=4 gnormal mseed=954111, fault at application 5)'
+    if msg not in ck.known_hits:
+        ck.known_hits.append(msg)
+    return True
+
+
 def gen_cases(rng, tier):
     """(class, fresh-history line, reused-history line): the reused object first goes through a prefix of other calls"""
     per = 14 if tier == 'quick' else 200
@@ -101,12 +143,14 @@ def run(ck, replay=None):
             ck.count(c[2], nontriv)
             if oa != oa2:
                 badc.append((c, 'two fresh runs differ'))
+            elif oa != ob and known_f1_c06(ck, exe, c[0], c[2]):
+                pass
             elif oa != ob:
                 fld = ['threw', 'exc', 'ret', 'info', 'niter', 'nops', 'eigenvalues', 'eigenvectors', 'nvals', 'ncols']
                 d = [fld[j] for x, y in zip(oa, ob) for j in range(len(x)) if x[j] != y[j]]
                 badc.append((c, 'reused solver differs from fresh solver in: ' + ','.join(dict.fromkeys(d))))
             for d_, nm in ((a, 'fresh'), (b, 'reused')):
-                if d_.get('probe_same') is False:
+                if d_.get('probe_same') is False and not (nm == 'reused' and known_f1_c06(ck, exe, c[0], c[2])):
                     badp.append((c, '%s: operator behaves differently after the run (max change %.3g)' % (nm, d_.get('probe_delta', 0))))
         ck.oblige('fresh solver == reused solver == second fresh run, bit for bit (%d triples)' % len(cases), not badc,
                   '%s | reused history `%s`' % (badc[0][1], badc[0][0][2]) if badc else '')
